@@ -7,9 +7,13 @@
 // and, seeded, with ParenExpr / ExprStmt wrappers).  pattern.Match runs on each combination and
 // the result (matched?, Matcher.State projected to name -> canonical subtree) must equal the
 // specification's Den(p, t).  A panic of the matcher on a well-formed pattern is a mismatch.
+// Absent optional children (ast.SliceExpr with nil Low / High / Max) are built as nil ast.Expr; a
+// name the spec binds to Absent must be a key of Matcher.State with a nil value ("<nil>").
 //
 // input : TLC output files (lines `"CASE {...}"`: d=pat|tree dictionary entries, d=pair results)
-//         or NDJSON files with inline cases {"d":"case","p":{..},"t":{..},"ok":..,"env":{..}}
+//
+//	or NDJSON files with inline cases {"d":"case","p":{..},"t":{..},"ok":..,"env":{..}}
+//
 // output: one JSON object per mismatch, then {"summary":{...}}
 package main
 
@@ -165,8 +169,17 @@ func runMatch(q pattern.Pattern, node ast.Node) (res result) {
 	}()
 	m, ok := pattern.Match(q, node)
 	env := map[string]string{}
-	for k, v := range m.State {
-		env[k] = absyn.CanonReal(v)
+	// "bound" is "the key is in Matcher.State" (comma-ok): a name bound to an absent optional child
+	// has the key with a nil value and is printed "<nil>"; an unbound name has no entry at all.
+	for _, name := range q.Bindings {
+		if v, bound := m.State[name]; bound {
+			env[name] = absyn.CanonReal(v)
+		}
+	}
+	for k, v := range m.State { // keys that are no name of the pattern would be a mismatch, too
+		if _, seen := env[k]; !seen {
+			env[k] = absyn.CanonReal(v)
+		}
 	}
 	return result{ok: ok, env: env}
 }
@@ -185,7 +198,8 @@ func sameEnv(a, b map[string]string) bool {
 
 type stats struct {
 	pairs, matches, runs, okCases, panics int
-	parseErr                             int
+	parseErr                              int
+	absentTree, absentBound               int // pairs whose tree has an absent child / whose expected env binds a name to Absent
 }
 
 func work(jobs <-chan job, out chan<- Mismatch, st *stats, mu *sync.Mutex) {
@@ -194,6 +208,15 @@ func work(jobs <-chan job, out chan<- Mismatch, st *stats, mu *sync.Mutex) {
 		local.pairs++
 		if j.ok {
 			local.okCases++
+		}
+		if absyn.HasAbsent(j.te.abs) {
+			local.absentTree++
+		}
+		for _, v := range j.env {
+			if v == "<nil>" {
+				local.absentBound++
+				break
+			}
 		}
 		rng := rand.New(rand.NewSource(*seed*7919 + int64(j.pi)*100003 + int64(j.ti)))
 		type variant struct {
@@ -252,6 +275,8 @@ func work(jobs <-chan job, out chan<- Mismatch, st *stats, mu *sync.Mutex) {
 	st.okCases += local.okCases
 	st.panics += local.panics
 	st.parseErr += local.parseErr
+	st.absentTree += local.absentTree
+	st.absentBound += local.absentBound
 	mu.Unlock()
 }
 
@@ -397,6 +422,6 @@ func main() {
 	}
 	enc.Encode(map[string]any{"summary": map[string]any{
 		"patterns": npat, "trees": ntree, "pairs": st.pairs, "expected_matches": st.okCases, "match_calls": st.runs,
-		"agreeing_matches": st.matches, "panics": st.panics, "parse_errors": st.parseErr, "parse_diffs": parseDiff,
+		"agreeing_matches": st.matches, "pairs_tree_with_absent_child": st.absentTree, "pairs_binding_absent": st.absentBound, "panics": st.panics, "parse_errors": st.parseErr, "parse_diffs": parseDiff,
 		"mismatches": total, "by_kind": byKind, "samples": samples}})
 }
